@@ -212,6 +212,10 @@ func (c *proxyClient) writeLoop(ctx context.Context) error {
 	for {
 		select {
 		case rpc := <-c.fromServer:
+			// Both cases may be ready; once the context has ended nothing more is forwarded.
+			if ctx.Err() != nil {
+				return errors.Wrap(ctx.Err(), "context cancelled")
+			}
 
 			err := c.conn.Write(ctx, rpc)
 			if err != nil {
@@ -237,6 +241,12 @@ func (c *proxyClient) connect(ctx context.Context, newConnection NewConnection) 
 	c.conn, err = newConnection(c.id)
 	if err != nil {
 		c.report(ctx, err)
+		return
+	}
+
+	// The dial may have outlasted the proxy: a connection established after
+	// shutdown is not used.
+	if ctx.Err() != nil {
 		return
 	}
 
